@@ -226,7 +226,7 @@ namespace fs
             }
             iterator end() const
             {
-                if (split->small_note) // small note have no aligned parts, but apbegin > apend (means empty)
+                if (split->small_note || split->apbegin > split->apend) // small note (or an empty un-aligned range) have no aligned parts, but apbegin > apend (means empty)
                     return iterator(split, split->apbegin); // therefore, end() should return apbegin for range-based loop
                 return iterator(split, split->apend);
             }
